@@ -40,6 +40,8 @@ type Ctx struct {
 	fileOf  map[*ast.FuncDecl]*ast.File
 	parents map[ast.Node]ast.Node // lazily built per file
 
+	NameNotes []string // renames applied by the name normalisation (canon.go)
+
 	reachCache map[string]map[*ssa.Function]bool
 	cens       *census
 	entr       *entrySets
@@ -61,6 +63,7 @@ type loadOpts struct {
 	rootPath string
 	config   string
 	vta      bool
+	noCanon  bool // do not alpha-rename to the reference names (used for the renamed copy itself)
 }
 
 func loadCtx(o loadOpts) (*Ctx, error) {
@@ -120,6 +123,9 @@ func loadCtx(o loadOpts) (*Ctx, error) {
 		c.VTA = vta.CallGraph(ssautil.AllFunctions(prog), c.CG)
 	}
 	c.reachCache = map[string]map[*ssa.Function]bool{}
+	if !o.noCanon {
+		return normaliseNames(c, o), nil
+	}
 	return c, nil
 }
 
